@@ -215,7 +215,8 @@ class Scenario(object):
     def __init__(self, name, T, v):
         self.name, self.T, self.v = name, T, v
         self.bytes = {'dec-ber': F.encode('indef', T, v), 'dec-cer': M.cer(T, v), 'dec-der': M.der(T, v)}
-        self.calls = list(ENC) + list(DEC) + ['dec-native', 'mutate-last', 'read-iter', 'read-print', 'read-eq', 'read-values']
+        self.calls = list(ENC) + list(DEC) + ['dec-native', 'enc-py-chunk1', 'mutate-last', 'read-iter', 'read-print', 'read-eq',
+                                             'read-values']
         self._solo = {}
 
     def fresh(self):
@@ -259,6 +260,11 @@ class Scenario(object):
         if call in DEC:
             out = outcome(lambda: DEC[call](self.bytes[call], asn1Spec=spec))
             return out, (out[1][0] if out[0] == 'ok' else None)
+        if call == 'enc-py-chunk1':
+            if U.contains(self.T, lambda t: t[0] == 'ANY'):
+                return ('ok', None), None
+            tree = B.py_tree(self.T, self.v)
+            return outcome(lambda: ber_enc.encode(tree, asn1Spec=spec, defMode=False, maxChunkSize=1)), None
         if call == 'dec-native':
             py = nat_enc.encode(B.build(self.T, self.v, B.to_spec(self.T, cache=False)))
             out = outcome(lambda: nat_dec.decode(py, asn1Spec=spec))
